@@ -65,31 +65,48 @@ def foldTup {σ : Type} (N : Nat) (f : σ → List Nat → σ) : Nat → Nat →
       let x := start + d
       if x + k < N then foldTup N f k (x+1) (x :: pre) acc else acc) acc
 
-/-- model verdict string and oracle-vs-impl agreement over every ascending tuple -/
+/-- what went wrong first on an `exh` line -/
+structure ExhBad where
+  oracleBad : Option String := none   -- implementation ≠ independent oracle (spec failure)
+  modelBad : Option String := none    -- implementation = oracle but ≠ transliterated model
+
+/-- Every ascending tuple: FIRST the implementation's accept/reject is compared with the independent
+oracle (`oracleAccept`: count / ascending / range rules + `oracleCycle`) — a difference is a spec
+failure and names the first offending tuple; only when implementation = oracle everywhere is the
+transliterated model compared (accept/reject and error kind) — a difference there is a model
+disagreement. -/
 def exhaustive (v : Variant) (eb ps : Nat) (k : Keys) (impl : String) : Verdict :=
   let N := 2^eb
   let tbl := epTable (epOf v k eb) N
   let ep := fun n => tbl.getD n (0, 0)
   let P := mkParams eb ps ps
   let implChars := impl.toList.toArray
-  let (model, idx, bad) := foldTup N (fun (acc : String × Nat × Option String) t =>
-      let (s, i, bad) := acc
+  let (idx, bad) := foldTup N (fun (acc : Nat × ExhBad) t =>
+      let (i, bad) := acc
       let r := verifyOf v P ep t
       let o := oracleAccept v ps (2^eb - 1) ep t
       let ic := implChars.getD i '?'
-      let mAcc := match r with | .ok _ => true | .error _ => false
-      let bad := match bad with
-        | some b => some b
-        | none =>
-          if (ic == 'A') != mAcc then
-            some s!"tuple {showNatList t} spec(model)={resChar r} impl={ic}"
-          else if (ic == 'A') != o then
-            some s!"tuple {showNatList t} oracle={if o then "accept" else "reject"} impl={ic}"
-          else none
-      (s.push (resChar r), i+1, bad)) ps 0 [] ("", 0, none)
-  match bad with
+      let bad :=
+        if bad.oracleBad.isNone && (ic == 'A') != o then
+          let what := if ic == 'A' then "ACCEPTS a non-cycle" else s!"REJECTS ({ic}) a cycle"
+          let oa := if o then "accept" else "reject"
+          let msg := s!"tuple #{i} nonces={showNatList t}: implementation {what}; oracle={oa} model={resName r} impl={ic}"
+          { bad with oracleBad := some msg }
+        else bad
+      let bad :=
+        if bad.modelBad.isNone && ic != resChar r then
+          let oa := if o then "accept" else "reject"
+          let msg := s!"tuple #{i} nonces={showNatList t}: model={resChar r} impl={ic} (oracle={oa})"
+          { bad with modelBad := some msg }
+        else bad
+      (i+1, bad)) ps 0 [] (0, {})
+  match bad.oracleBad with
   | some b => .fail b
-  | none => if idx != implChars.size then .diff s!"tuples={idx}" else cmpModel model impl
+  | none =>
+    if idx != implChars.size then .diff s!"tuples={idx} but {implChars.size} verdict characters"
+    else match bad.modelBad with
+      | some b => .diff b
+      | none => .ok
 
 def handle (st : St) (args : List String) (impl : String) : St × Verdict :=
   match args with
@@ -124,16 +141,14 @@ def handle (st : St) (args : List String) (impl : String) : St × Verdict :=
     | some v, some eb, some ps, some cps, some a, some b, some c, some d, some ns =>
       let ep := epOf v (mkKeys a b c d) eb
       let r := verifyOf v (mkParams eb ps cps) ep ns
-      -- accept/reject of the verifier models is proven equal to the specification
-      -- (`Props/C05.lean`, `verify*_iff`), so a deviation there is a spec failure; the
-      -- independent graph oracle (production configuration ctx.proof_size = proofsize) is
-      -- evaluated as well; a different error kind alone is a model disagreement
       let o := oracleAccept v ps (2^eb - 1) ep ns
-      let mAcc := match r with | .ok _ => true | .error _ => false
-      if (impl == "ok") != mAcc then
-        (st, .fail s!"{resName r} (accept/reject proven equal to the simple-cycle specification)")
-      else if cps == ps && (impl == "ok") != o then
-        (st, .fail s!"oracle={if o then "accept" else "reject"} model={resName r}")
+      -- FIRST implementation vs independent oracle (production configuration
+      -- ctx.proof_size = proofsize): a difference is a concrete failing input
+      if cps == ps && (impl == "ok") != o then
+        let what := if impl == "ok" then "ACCEPTS a non-cycle" else s!"REJECTS ({impl}) a cycle"
+        let oa := if o then "accept" else "reject"
+        (st, .fail s!"nonces={showNatList ns}: implementation {what}; oracle={oa} model={resName r}")
+      -- then the transliterated model (accept/reject and error kind)
       else (st, cmpModel (resName r) impl)
     | _, _, _, _, _, _, _, _, _ => (st, .unknown)
   | ["exh", v, eb, ps, a, b, c, d] =>
